@@ -168,26 +168,362 @@ def _is_existence_test(prog, func, call):
     return ok
 
 
-def _existence_guards(prog, func, before_node):
-    """Symbolic paths P for which `if (... !path_exists(P) ...) throw` precedes before_node
-    among the statements of the function body (all disjuncts of an || condition count)."""
-    out = []
-    for st in children(func.body):
-        if st.get('loc') and before_node.get('loc') and st['loc'][1] >= before_node['loc'][1]:
-            break
-        if st.get('kind') != 'IfStmt':
-            continue
-        c = children(st)
-        cond, then = c[0], c[1]
-        if not any(x.get('kind') == 'CXXThrowExpr' for x in walk(then)):
-            continue
-        for x in walk(cond):
-            if x.get('kind') == 'UnaryOperator' and x.get('opcode') == '!':
-                inner = strip(children(x)[0], explicit=True)
-                if inner.get('kind') == 'CallExpr' and len(children(inner)) > 1 and \
-                        _is_existence_test(prog, func, inner):
-                    out.append(_sym_path(prog, func, children(inner)[1]))
+# ---------------------------------------------------------------------------------------------
+# Existence facts.  What matters is whether, on every way of reaching an open / ATTACH, the file it
+# names is known to exist (loaders) or known to be absent (creators) - not where the test is
+# written.  A small must-analysis over the structured AST computes, for every point of a function,
+# the set of literals (path, exists?) that hold there:
+#   * conditions are read as formulas over `path_exists(P)` atoms: !, &&, ||, named boolean flags
+#     (single-assignment locals), repository predicates that return such a formula over their
+#     parameters, std::any_of / all_of / none_of over a local list of paths;
+#   * `if` refines both branches, a branch that throws / returns contributes nothing to what follows
+#     (so the guard-clause form and the early-return form are the same thing);
+#   * a call of a repository function adds what holds at every normal exit of the callee (a check
+#     factored into an `ensure_...` helper), with arguments substituted for parameters;
+#   * an obligation that the function of the site cannot discharge itself is handed to every caller
+#     on the way from the roots, the callee's parameters replaced by the caller's arguments (the
+#     open / ATTACH factored into a helper that takes the paths).
+
+_UNK = ('unk',)
+_QUANT = {'any_of': 'or', 'all_of': 'and', 'none_of': 'nor'}
+
+
+def _subst_sp(sp, mapping):
+    """Replace ('param', name) parts by the caller-side symbolic value; None if one is unknown."""
+    if sp is None:
+        return None
+    out = ()
+    for part in sp:
+        if isinstance(part, tuple) and part[0] == 'param' and part[1] in mapping:
+            v = mapping[part[1]]
+            if v is None:
+                return None
+            out += v
+        else:
+            out += (part,)
+    return _join(out)
+
+
+def _subst_formula(fm, mapping):
+    k = fm[0]
+    if k == 'exists':
+        return ('exists', _subst_sp(fm[1], mapping))
+    if k == 'not':
+        return ('not', _subst_formula(fm[1], mapping))
+    if k in ('and', 'or'):
+        return (k, _subst_formula(fm[1], mapping), _subst_formula(fm[2], mapping))
+    return fm
+
+
+def _assume(fm, truth):
+    """Literals (path, exists?) implied by `fm == truth`; None = contradiction (unreachable)."""
+    k = fm[0]
+    if k == 'exists':
+        return frozenset([(fm[1], truth)]) if fm[1] is not None else frozenset()
+    if k == 'not':
+        return _assume(fm[1], not truth)
+    if k == 'const':
+        return frozenset() if fm[1] == truth else None
+    if k in ('and', 'or'):
+        a, b = _assume(fm[1], truth), _assume(fm[2], truth)
+        if (k == 'and') == truth:       # both operands are known
+            return None if a is None or b is None else a | b
+        if a is None:
+            return b
+        if b is None:
+            return a
+        return a & b
+    return frozenset()
+
+
+def _meet(a, b):
+    """Join of two control-flow paths: what holds on both (None = path does not arrive)."""
+    if a is None:
+        return b
+    if b is None:
+        return a
+    return a & b
+
+
+def _plus(facts, more):
+    if facts is None or more is None:
+        return None
+    return facts | more
+
+
+def _lambda_parts(lam):
+    """(parameter names, body) of a LambdaExpr."""
+    body = None
+    names = []
+    for c in children(lam):
+        if c.get('kind') == 'CompoundStmt':
+            body = c
+        elif c.get('kind') == 'CXXRecordDecl':
+            for m in children(c):
+                if m.get('kind') == 'CXXMethodDecl' and m.get('name') == 'operator()':
+                    names = [p.get('name') for p in children(m) if p.get('kind') == 'ParmVarDecl']
+    return names, body
+
+
+def _single_return(body):
+    rets = [x for x in walk(body) if x.get('kind') == 'ReturnStmt']
+    if len(rets) == 1 and children(rets[0]) and all(
+            st.get('kind') in ('DeclStmt', 'ReturnStmt', 'NullStmt') for st in children(body)):
+        return children(rets[0])[0]
+    return None
+
+
+def _bind_args(prog, caller, call, callee):
+    """parameter name of callee -> symbolic path of the argument at this call (None if not a path)."""
+    c = children(call)
+    k = call.get('kind')
+    if k in ('CXXConstructExpr', 'CXXTemporaryObjectExpr'):
+        args = c
+    elif k == 'CXXOperatorCallExpr' and callee.kind == 'CXXMethodDecl':
+        args = c[2:]
+    else:
+        args = c[1:]
+    out = {}
+    for p, a in zip(callee.params, args):
+        out[p.get('name')] = None if a.get('kind') == 'CXXDefaultArgExpr' else _sym_path(prog, caller, a)
+    for p in callee.params[len(args):]:
+        out[p.get('name')] = None
     return out
+
+
+class ExistenceFlow:
+    """Per-function must-facts about file existence (see the comment above)."""
+
+    def __init__(self, prog, cg):
+        self.prog = prog
+        self.cg = cg
+        self._at = {}
+        self._exit = {}
+        self._active = []
+
+    # ---- conditions -> formulas -------------------------------------------------------------
+    def _callee(self, func, call):
+        d, qn, virt, recv = self.prog.resolve_callee(func.tu, call)
+        if d is None or virt:
+            return None
+        defs = [g for g in self.prog.definitions_for(func.tu, d, qn) if g.body is not None and not g.is_pattern]
+        if len(defs) == 1 and self.prog.in_repo(defs[0].file):
+            return defs[0]
+        return None
+
+    def formula(self, func, expr, depth=0):
+        n = strip(expr, explicit=True)
+        k = n.get('kind')
+        if k == 'CXXBoolLiteralExpr':
+            return ('const', bool(n.get('value')))
+        if k == 'UnaryOperator' and n.get('opcode') == '!':
+            return ('not', self.formula(func, children(n)[0], depth))
+        if k == 'BinaryOperator' and n.get('opcode') in ('&&', '||'):
+            c = children(n)
+            return ('and' if n['opcode'] == '&&' else 'or',
+                    self.formula(func, c[0], depth), self.formula(func, c[1], depth))
+        if k == 'BinaryOperator' and n.get('opcode') in ('==', '!='):
+            c = children(n)
+            for a, b in ((c[0], c[1]), (c[1], c[0])):
+                lit = strip(b, explicit=True)
+                if lit.get('kind') == 'CXXBoolLiteralExpr':
+                    fm = self.formula(func, a, depth)
+                    return fm if bool(lit.get('value')) == (n['opcode'] == '==') else ('not', fm)
+            return _UNK
+        if k == 'DeclRefExpr' and depth < 6:
+            ref = n.get('referencedDecl') or {}
+            init = program.single_assignment_locals(func.node).get(ref.get('id')) \
+                if ref.get('kind') == 'VarDecl' else None
+            if init is not None and 'bool' in (n.get('type') or ''):
+                return self.formula(func, init, depth + 1)
+            return _UNK
+        if k == 'CallExpr' and len(children(n)) > 1:
+            name = (strip(children(n)[0]).get('referencedDecl') or {}).get('name') or ''
+            if _is_existence_test(self.prog, func, n):
+                return ('exists', _sym_path(self.prog, func, children(n)[1]))
+            if name in _QUANT:
+                return self._quantifier(func, n, name, depth)
+            g = self._callee(func, n)
+            if g is not None and 'bool' in (g.ret or '') and depth < 6:
+                ret = _single_return(g.body)
+                if ret is not None:
+                    return _subst_formula(self.formula(g, ret, depth + 1), _bind_args(self.prog, func, n, g))
+        return _UNK
+
+    def _quantifier(self, func, call, name, depth):
+        """std::any_of / all_of / none_of (first, last, pred) over a local list of paths."""
+        args = children(call)[1:]
+        if len(args) != 3:
+            return _UNK
+        conts = []
+        for a in args[:2]:
+            a = strip(a, explicit=True)
+            c = children(a)
+            if a.get('kind') == 'CXXMemberCallExpr' and c:
+                m = strip(c[0])
+                if m.get('kind') == 'MemberExpr' and m.get('name') in ('begin', 'end', 'cbegin', 'cend') and children(m):
+                    conts.append((m.get('name').lstrip('c'), strip(children(m)[0], explicit=True)))
+                    continue
+            if a.get('kind') == 'CallExpr' and len(c) == 2 and \
+                    (strip(c[0]).get('referencedDecl') or {}).get('name') in ('begin', 'end', 'cbegin', 'cend'):
+                conts.append(((strip(c[0]).get('referencedDecl') or {}).get('name').lstrip('c'),
+                              strip(c[1], explicit=True)))
+                continue
+            return _UNK
+        if [x[0] for x in conts] != ['begin', 'end']:
+            return _UNK
+        ids = [(x[1].get('referencedDecl') or {}).get('id') for x in conts]
+        if ids[0] is None or ids[0] != ids[1]:
+            return _UNK
+        init = program.single_assignment_locals(func.node).get(ids[0])
+        if init is None:
+            return _UNK
+        lst = strip(init, explicit=True)
+        while lst.get('kind') in ('InitListExpr', 'CXXStdInitializerListExpr', 'CXXConstructExpr') and \
+                len(children(lst)) == 1 and strip(children(lst)[0], explicit=True).get('kind') in (
+                    'InitListExpr', 'CXXStdInitializerListExpr'):
+            lst = strip(children(lst)[0], explicit=True)
+        if lst.get('kind') != 'InitListExpr' or not children(lst):
+            return _UNK
+        elems = [_sym_path(self.prog, func, e) for e in children(lst)]
+        pred = strip(args[2], explicit=True)
+        while pred.get('kind') in ('CXXConstructExpr',) and len(children(pred)) == 1:
+            pred = strip(children(pred)[0], explicit=True)
+        parts = []
+        for sp in elems:
+            if pred.get('kind') == 'LambdaExpr':
+                names, body = _lambda_parts(pred)
+                ret = _single_return(body) if body is not None else None
+                if ret is None or len(names) != 1:
+                    return _UNK
+                parts.append(_subst_formula(self.formula(func, ret, depth + 1), {names[0]: sp}))
+            else:
+                return _UNK
+        op = _QUANT[name]
+        fm = parts[0]
+        for x in parts[1:]:
+            fm = ('and' if op == 'and' else 'or', fm, x)
+        return ('not', fm) if op == 'nor' else fm
+
+    # ---- statements -------------------------------------------------------------------------
+    def _analyse(self, func):
+        if func.key in self._at:
+            return
+        at = self._at[func.key] = {}
+        exits = []
+        self._active.append(func.key)
+        try:
+            out = self._stmt(func, func.body, frozenset(), at, exits)
+        finally:
+            self._active.pop()
+        if out is not None:
+            exits.append(out)
+        post = None
+        for e in exits:
+            post = _meet(post, e)
+        self._exit[func.key] = post if exits else None
+
+    def _leaf(self, func, n, facts, at):
+        for x in walk(n):
+            at[id(x)] = facts
+
+    def _after_call(self, func, n, facts):
+        """Facts established by a repository callee on all of its normal exits."""
+        top = strip(n, explicit=True)
+        if facts is None or top.get('kind') not in ('CallExpr', 'CXXMemberCallExpr'):
+            return facts
+        g = self._callee(func, top)
+        if g is None or g.key in self._active or len(self._active) > 3:
+            return facts
+        self._analyse(g)
+        post = self._exit.get(g.key)
+        if post is None:
+            return facts if g.key not in self._exit else None     # the callee never returns normally
+        m = _bind_args(self.prog, func, top, g)
+        more = set()
+        for sp, pol in post:
+            sp2 = _subst_sp(sp, m)
+            if sp2 is not None:
+                more.add((sp2, pol))
+        return facts | frozenset(more)
+
+    def _stmt(self, func, n, facts, at, exits):
+        k = n.get('kind')
+        at[id(n)] = facts
+        if k == 'CompoundStmt':
+            for st in children(n):
+                facts = self._stmt(func, st, facts, at, exits)
+            return facts
+        if k == 'IfStmt':
+            c = children(n)
+            if n.get('hasInit'):
+                facts = self._stmt(func, c.pop(0), facts, at, exits)
+            if n.get('hasVar'):
+                self._leaf(func, c.pop(0), facts, at)
+            self._leaf(func, c[0], facts, at)
+            fm = self.formula(func, c[0]) if facts is not None else _UNK
+            out_t = self._stmt(func, c[1], _plus(facts, _assume(fm, True)), at, exits)
+            f_e = _plus(facts, _assume(fm, False))
+            out_e = self._stmt(func, c[2], f_e, at, exits) if len(c) > 2 else f_e
+            return _meet(out_t, out_e)
+        if k == 'ReturnStmt':
+            self._leaf(func, n, facts, at)
+            if facts is not None:
+                exits.append(facts)
+            return None
+        if k in ('BreakStmt', 'ContinueStmt'):
+            return None
+        if k in ('ForStmt', 'WhileStmt', 'CXXForRangeStmt', 'DoStmt'):
+            c = children(n)
+            body = c[0] if k == 'DoStmt' else c[-1]
+            inner = facts
+            for x in c:
+                if x is not body:
+                    self._leaf(func, x, facts, at)
+            if k == 'WhileStmt' and facts is not None:
+                inner = _plus(facts, _assume(self.formula(func, c[0]), True))
+            self._stmt(func, body, inner, at, exits)
+            return facts
+        if k == 'CXXTryStmt':
+            c = children(n)
+            out = self._stmt(func, c[0], facts, at, exits)
+            for h in c[1:]:
+                hc = children(h)
+                for x in hc[:-1]:
+                    self._leaf(func, x, facts, at)
+                if hc:
+                    out = _meet(out, self._stmt(func, hc[-1], facts, at, exits))
+            return out
+        if k == 'SwitchStmt':
+            c = children(n)
+            for x in c[:-1]:
+                self._leaf(func, x, facts, at)
+            body = c[-1]
+            for st in (children(body) if body.get('kind') == 'CompoundStmt' else [body]):
+                self._stmt(func, st, facts, at, exits)
+            return facts
+        if k in ('CaseStmt', 'DefaultStmt', 'LabelStmt', 'AttributedStmt'):
+            c = children(n)
+            for x in c[:-1]:
+                self._leaf(func, x, facts, at)
+            return self._stmt(func, c[-1], facts, at, exits) if c else facts
+        self._leaf(func, n, facts, at)
+        if strip(n, explicit=True).get('kind') == 'CXXThrowExpr':
+            return None
+        if k == 'DeclStmt':
+            for v in children(n):
+                if v.get('kind') == 'VarDecl':
+                    init = [x for x in children(v) if not x['kind'].endswith('Attr') and not x['kind'].endswith('Comment')]
+                    if init:
+                        facts = self._after_call(func, init[-1], facts)
+            return facts
+        return self._after_call(func, n, facts)
+
+    # ---- queries ----------------------------------------------------------------------------
+    def facts_at(self, func, node):
+        """Literals that hold whenever `node` (any node of func's body) is evaluated; None = never."""
+        self._analyse(func)
+        return self._at[func.key].get(id(node), frozenset())
 
 
 def _open_sites(prog, cg, reach):
@@ -202,38 +538,133 @@ def _open_sites(prog, cg, reach):
                 args = [a for a in children(n) if a.get('kind') != 'CXXDefaultArgExpr']
                 if len(args) != 1:
                     continue
-                at = strip(args[0]).get('type') or ''
-                if 'sqlite::database' in at:
-                    continue    # copy / move of a handle
+                a0 = strip(args[0])
+                ct = (n.get('ctorType') or '').replace('sqlite::', '')
+                if any('sqlite::database' in (a0.get(k) or '') for k in ('type', 'dtype')) or \
+                        re.match(r'void \((const )?database &&?\)', ct):
+                    continue    # copy / move of a handle (also of a by-value parameter through std::move)
                 out.append((f, n, args[0]))
     return out
 
 
-def guarded_opens(prog, cg, eff, chk, rid, roots):
-    """Every ATTACH / sqlite::database{path} open reachable from `roots` sits behind an existence
-    test of the very path it opens (symbolic path equality).  Shared with C13: a loader that probes
+def open_sequence(prog, cg, eff, f, depth=0):
+    """[(kind, alias, symbolic path)]: the connections f opens and the files it attaches, in the order
+    in which they happen.  The sequence of a repository callee is spliced in at the call, its
+    parameters replaced by the arguments (the open + ATTACH statements shared by create and load
+    through a helper that takes the paths are still create's and load's own sequence)."""
+    def pos(loc):
+        return (loc[3] if loc and len(loc) > 3 and loc[3] is not None else (loc[1] if loc else 0),)
+    ev = []
+    for s in eff.sites(f):
+        st = s.stored_in
+        if st is not None and st.kind == 'attach':
+            sp = _sym_path(prog, f, s.binds[0]) if s.binds else ('literal',)
+            ev.append((pos(s.loc), 'attach', (st.name or '').strip("'\"").lower(), sp))
+    for g, n, arg in _open_sites(prog, cg, {f.key: (f, None, None)}):
+        sp = _sym_path(prog, g, arg)
+        if sp != (':memory:',):
+            ev.append((pos(n.get('loc')), 'open', 'main', sp))
+    if depth < 3:
+        for e in cg.edges(f):
+            for t in e.targets:
+                if t.body is None or t.is_pattern or not prog.in_repo(t.file) or t.key == f.key:
+                    continue
+                sub = open_sequence(prog, cg, eff, t, depth + 1)
+                if not sub:
+                    continue
+                m = _bind_args(prog, f, e.node, t)
+                for i, (kind, alias, sp) in enumerate(sub):
+                    ev.append((pos(e.node.get('loc')) + (i,), kind, alias,
+                               sp if sp == ('literal',) else _subst_sp(sp, m)))
+    ev.sort(key=lambda x: x[0])
+    return [(kind, alias, sp) for _, kind, alias, sp in ev]
+
+
+def _rev_edges(cg, reach):
+    rev = {}
+    for key, (g, _, _) in reach.items():
+        if g.body is None or g.is_pattern:
+            continue
+        for e in cg.edges(g):
+            for t in e.targets:
+                rev.setdefault(t.key, []).append((g, e.node))
+    return rev
+
+
+_FLOWS = {}
+
+
+def existence_flow(prog, cg):
+    fl = _FLOWS.get(id(prog))
+    if fl is None:
+        fl = _FLOWS[id(prog)] = ExistenceFlow(prog, cg)
+    return fl
+
+
+def _existence_guards(prog, func, before_node):
+    """Symbolic paths known to exist whenever before_node is evaluated, as far as func itself
+    establishes it (guard clause, early return, named flags, predicate / ensure helpers)."""
+    facts = existence_flow(prog, callgraph.get(prog)).facts_at(func, before_node)
+    if facts is None:
+        return []
+    return [sp for sp, pol in sorted(facts, key=str) if pol]
+
+
+def prove_exists(prog, cg, rev, func, node, sp, depth=0, tested=None, proved=None):
+    """Is the file `sp` known to exist on every way from the roots (whose call edges are `rev`) to
+    `node` in func?  Discharged by func itself, or by every caller with its arguments substituted."""
+    fl = existence_flow(prog, cg)
+    facts = fl.facts_at(func, node)
+    if facts is None:
+        return True
+    if tested is not None:
+        tested.extend('%s: %s' % (func.name, _show_path(p)) for p, pol in sorted(facts, key=str) if pol)
+    if sp is None:
+        return False
+    if (sp, True) in facts:
+        if proved is not None:
+            proved.append(sp)
+        return True
+    callers = rev.get(func.key, [])
+    if not callers or depth >= 4:
+        return False
+    for g, cn in callers:
+        sp2 = _subst_sp(sp, _bind_args(prog, g, cn, func))
+        if not prove_exists(prog, cg, rev, g, cn, sp2, depth + 1, tested, proved):
+            return False
+    return True
+
+
+def guarded_opens(prog, cg, eff, chk, rid, roots, consequence=None):
+    """Every ATTACH / sqlite::database{path} open reachable from `roots` happens only when the very
+    path it opens is known to exist (symbolic path equality).  Shared with C13: a loader that probes
     one path and opens another both misreports what is there and creates the file it opens."""
     es, reach = eff.transitive(roots)
+    rev = _rev_edges(cg, reach)
+    attach_why, open_why = consequence or (
+        'what the loader reports as present is not what it opens (and attaching a missing file creates it)',
+        'a directory without that file is reported as a library (and the open creates the file)')
     n = 0
-    for e in es:
-        if e.cls != 'attach':
-            continue
-        n += 1
+    seen = set()
+    for e in sorted((e for e in es if e.cls == 'attach'), key=lambda e: e.loc):
         loc = e.loc
+        if loc in seen:
+            continue
+        seen.add(loc)
+        n += 1
         if not e.site.binds:
             chk.violation(rid, '%s|attach literal' % e.func.qualname, loc,
                           'ATTACH of a literal target on a load path: %s' % e.stmt.text())
             continue
         sp = _sym_path(prog, e.func, e.site.binds[0])
-        guards = _existence_guards(prog, e.func, e.site.node)
+        tested = []
         inst = '%s: %s of %s' % (e.func.qualname, e.stmt.text(), _show_path(sp))
-        if sp is not None and sp in guards:
-            chk.ok(rid, inst + ' behind an existence test of the same path', loc)
+        if prove_exists(prog, cg, rev, e.func, e.site.node, sp, tested=tested):
+            chk.ok(rid, inst + ' only where that path is known to exist', loc)
         else:
             chk.violation(rid, '%s|attach %s' % (e.func.qualname.split('::')[-1], _show_path(sp)), loc,
-                          '%s: the existence test before it probes %s, not this path: what the loader reports '
-                          'as present is not what it opens (and attaching a missing file creates it)' % (
-                              inst, [_show_path(g) for g in guards]))
+                          '%s: not every way of reaching it has tested this very path (known to exist there: %s): %s'
+                          % (inst, sorted(set(tested)), attach_why))
     for f, node, arg in _open_sites(prog, cg, reach):
         sp = _sym_path(prog, f, arg)
         loc = locstr(node)
@@ -242,15 +673,108 @@ def guarded_opens(prog, cg, eff, chk, rid, roots):
         if sp == (':memory:',):
             chk.ok(rid, inst + ' (in-memory)', loc)
             continue
-        guards = _existence_guards(prog, f, node)
-        if sp is not None and sp in guards:
-            chk.ok(rid, inst + ' behind an existence test of the same path', loc)
+        tested = []
+        if prove_exists(prog, cg, rev, f, node, sp, tested=tested):
+            chk.ok(rid, inst + ' only where that path is known to exist', loc)
         else:
             chk.violation(rid, '%s|open %s' % (f.qualname.split('::')[-1], _show_path(sp)), loc,
-                          '%s: the existence test before it probes %s, not this path: a directory without that '
-                          'file is reported as a library (and the open creates the file)' % (
-                              inst, [_show_path(g) for g in guards]))
+                          '%s: not every way of reaching it has tested this very path (known to exist there: %s): %s'
+                          % (inst, sorted(set(tested)), open_why))
     return n
+
+
+def _atoms(fm, out):
+    if fm[0] == 'exists':
+        if fm[1] is not None:
+            out.add(fm[1])
+    elif fm[0] in ('not', 'and', 'or'):
+        for x in fm[1:]:
+            _atoms(x, out)
+    return out
+
+
+def _norm_dir(sp):
+    """A path relative to the library directory, whatever the parameter holding the directory is called."""
+    return tuple(x if isinstance(x, str) else ('param', 'directory') for x in sp)
+
+
+def creators_refuse_existing(prog, cg, eff, chk, rid):
+    """A library is created only where none exists.  On every way from create_database to a statement
+    that opens / attaches a file of a new on-disk library, every file the load side probes (layout
+    detection) or demands (the loaders' own existence tests) is known to be absent: the refusal may be
+    a guard of the opening function, of a caller, or of an `ensure_...` helper, written with ||, a
+    named flag or std::any_of over the list of files.  A way on which the opened file is known to
+    exist is a loading way and carries no obligation."""
+    fl = existence_flow(prog, cg)
+    det = prog.func('djinterop::engine::detect_is_database2')
+    probed = set()
+    for n in walk(det.body):
+        if n.get('kind') == 'CallExpr' and 'bool' in (n.get('type') or ''):
+            for sp in _atoms(fl.formula(det, n), set()):
+                if len(sp) > 1:
+                    probed.add(_norm_dir(sp))
+    if len(probed) < 2:
+        raise AnalysisBroken('detect_is_database2 probes %d file(s); expected the m.db of both layouts' % len(probed))
+    lroot = prog.func('djinterop::engine::load_database', 'engine_schema &')
+    les, lreach = eff.transitive([lroot])
+    lrev = _rev_edges(cg, lreach)
+    for e in les:
+        if e.cls == 'attach' and e.site is not None and e.site.binds:
+            got = []
+            if prove_exists(prog, cg, lrev, e.func, e.site.node, _sym_path(prog, e.func, e.site.binds[0]), proved=got):
+                probed.update(_norm_dir(sp) for sp in got if len(sp) > 1)
+    root = prog.func('djinterop::engine::create_database')
+    es, reach = eff.transitive([root])
+    rev = _rev_edges(cg, reach)
+
+    def missing_on(f, node, sp, acc, depth):
+        """[set of probed paths not refused] per way of reaching node on which the file is created."""
+        facts = fl.facts_at(f, node)
+        if facts is None or (sp is not None and (sp, True) in facts):
+            return []
+        acc = acc | frozenset(p for p, pol in facts if not pol)
+        gap = probed - set(_norm_dir(p) for p in acc)
+        if not gap:
+            return []
+        callers = rev.get(f.key, [])
+        if not callers or depth >= 4:
+            return [gap]
+        out = []
+        for g, cn in callers:
+            m = _bind_args(prog, g, cn, f)
+            acc2 = frozenset(x for x in (_subst_sp(p, m) for p in acc) if x is not None)
+            out += missing_on(g, cn, _subst_sp(sp, m), acc2, depth + 1)
+        return out
+    sites = []
+    for e in es:
+        if e.cls == 'attach' and e.site is not None and e.site.binds:
+            sites.append((e.func, e.site.node, _sym_path(prog, e.func, e.site.binds[0])))
+    for f, node, arg in _open_sites(prog, cg, reach):
+        sp = _sym_path(prog, f, arg)
+        if sp != (':memory:',):
+            sites.append((f, node, sp))
+    openers = {}
+    for f, node, sp in sites:
+        tested = []
+        if prove_exists(prog, cg, rev, f, node, sp, tested=tested):
+            continue        # every way to it demands the file: a loader reached through the class hierarchy
+        openers.setdefault(f.key, (f, []))[1].extend(missing_on(f, node, sp, frozenset(), 0))
+    if not openers:
+        raise AnalysisBroken('create_database reaches no function that opens a database file')
+    for key, (f, gaps) in sorted(openers.items(), key=lambda kv: kv[1][0].qualname):
+        chk.analysed(f)
+        short = f.qualname.replace('djinterop::engine::', '')
+        missing = sorted(set().union(*gaps), key=str) if gaps else []
+        if not missing:
+            chk.ok(rid, '%s opens the files of a new library only where %s are known to be absent' % (
+                short, ', '.join(_show_path(x) for x in sorted(probed, key=str))), locstr(f.node))
+        else:
+            chk.violation(rid, '%s|creates over %s' % (short, ', '.join(_show_path(x) for x in missing)),
+                          locstr(f.node),
+                          '%s opens the files of a new library without refusing when %s is already there: '
+                          'create_database then succeeds in a directory that holds a library, and load_database '
+                          'rejects a directory with both layouts - the library just created is not recognised on '
+                          'load' % (short, ' / '.join(_show_path(x) for x in missing)))
 
 
 def handle_state_untouched(prog, cg, chk, E6, obs):
@@ -321,16 +845,18 @@ def run(tier='quick'):
     E3 = chk.rule('E3', 'no observing operation reaches create_dir, a schema creator\'s create(), '
                         'a stream opened for writing or a statement whose text is not a literal', floor=130)
     E4 = chk.rule('E4', 'every ATTACH and every sqlite::database{path} open reachable from an observing '
-                        'operation is preceded by `if (!path_exists(P)) throw` on the very same symbolic '
-                        'path (loading never creates a database file that is missing)', floor=4)
+                        'operation is reached only where the very same symbolic path is known to exist: a '
+                        'path_exists(P) test whose failure throws / returns, made by the function itself, by a '
+                        'helper it calls or by every caller (loading never creates a database file that is '
+                        'missing)', floor=4)
     E5 = chk.rule('E5', 'positive control: every mutating public operation shows a write / ddl / '
                         'dynamic statement in its transitive effect (the effect analysis sees through '
                         'the same call graph the observers are judged on)', floor=100)
     chk.assume('a SELECT or a read-only PRAGMA fires no trigger and changes no content (SQLite)')
     chk.assume('opening a connection on an existing file and ATTACHing an existing file do not change '
                'its content')
-    chk.note('E4 compares symbolic path values (parameter + literal parts, helpers inlined), so a guard '
-             'on the directory does not discharge an open of a file inside it')
+    chk.note('E4 compares symbolic path values (parameter + literal parts, helpers inlined, arguments substituted '
+             'for parameters across calls), so a guard on the directory does not discharge an open of a file inside it')
 
     obs, mut, skipped = api_surface(prog, spec)
     creators = set()
@@ -339,7 +865,6 @@ def run(tier='quick'):
                 'create', 'create_music_schema', 'create_performance_schema'):
             creators.add(f.key)
 
-    attach_sites = {}
     n_read_sites = set()
     for label, defs, kind in obs:
         for d in defs:
@@ -390,43 +915,10 @@ def run(tier='quick'):
                           facts={'path': cg.path_to(reach, k0)}, instance=label)
         else:
             chk.ok(E3, label, where)
-        for e in es:
-            if e.cls == 'attach':
-                attach_sites[e.loc] = e
 
-    for loc, e in sorted(attach_sites.items()):
-        if not e.site.binds:
-            chk.violation(E4, '%s|attach literal' % e.func.qualname, loc,
-                          'observer-reachable ATTACH of a literal target: %s' % e.stmt.text())
-            continue
-        sp = _sym_path(prog, e.func, e.site.binds[0])
-        guards = _existence_guards(prog, e.func, e.site.node)
-        inst = '%s: %s of %s' % (e.func.qualname, e.stmt.text(), _show_path(sp))
-        if sp is not None and sp in guards:
-            chk.ok(E4, inst + ' behind an existence test of the same path', loc)
-        else:
-            chk.violation(E4, '%s|attach %s' % (e.func.qualname.split('::')[-1], _show_path(sp)), loc,
-                          '%s: no preceding `if (!path_exists(P)) throw` tests this very path (tested: %s); '
-                          'attaching a file that does not exist creates it, so loading would modify the '
-                          'library directory' % (inst, [_show_path(g) for g in guards]))
-    all_reach = {}
-    for label, defs, kind in obs:
-        all_reach.update(cg.reachable(defs))
-    for f, n, arg in _open_sites(prog, cg, all_reach):
-        sp = _sym_path(prog, f, arg)
-        loc = locstr(n)
-        inst = '%s opens sqlite::database{%s}' % (f.qualname, _show_path(sp))
-        if sp == (':memory:',):
-            chk.ok(E4, inst + ' (in-memory)', loc)
-            continue
-        guards = _existence_guards(prog, f, n)
-        if sp is not None and sp in guards:
-            chk.ok(E4, inst + ' behind an existence test of the same path', loc)
-        else:
-            chk.violation(E4, '%s|open %s' % (f.qualname.split('::')[-1], _show_path(sp)), loc,
-                          '%s: no preceding `if (!path_exists(P)) throw` tests this very path (tested: %s); '
-                          'sqlite opens with READWRITE|CREATE, so loading would create the file' % (
-                              inst, [_show_path(g) for g in guards]))
+    guarded_opens(prog, cg, eff, chk, E4, [d for label, defs, kind in obs for d in defs], consequence=(
+        'attaching a file that does not exist creates it, so loading would modify the library directory',
+        'sqlite opens with READWRITE|CREATE, so loading would create the file'))
 
     E6 = chk.rule('E6', 'no member function reached from an observer assigns to or moves from a data member of its '
                         'own object: the handle is the same after the observation', floor=100)
